@@ -43,7 +43,8 @@ MANIFEST = {
             "C19_forward_declared (a type used only through pointer / reference is forward declared in its namespace, or included), C19_vector_included "
             "(a to-many member, association end or parameter brings <vector>), C19_includes_sorted (both dependency lists are sorted by FULL name without "
             "duplicates and depend only on the SET of names, not on set iteration order or insertion count: same-named types of different packages are "
-            "ordered by their full names; with C06_hash_order_irrelevant), C19_includes_source_shape (primitive list, branch conditions, template "
+            "ordered by their full names; with C06_hash_order_irrelevant), C19_includes_cover_from_diagram / C19_vector_from_diagram (the same from any project hosting the diagram's rows: idiagram_of D = "
+            "the raw diagram of the objects read, tied to the real objects), C19_includes_source_shape (primitive list, branch conditions, template "
             "sections, umlgen's calls pinned). Ties: the real functions vs the model on every class of every input (F), and the #include / forward-"
             "declaration lines read from the generated headers and sources vs the model's (E); independent oracle: every by-value class of the diagram "
             "is included under a path that resolves to its generated header. "
@@ -634,6 +635,8 @@ def adaptor_ties(ctx):
             ctx.tie_broken("correspondence vppclassdiagram.ExtractClassDiagram vs UmlBlob.load_cdiagram on the shipped project", {"diagram": name, "error": err})
         elif cd is not None and km.call("ub_adaptor", vs.db_v(db), name) != [ub.abstract_view(cd)]:
             ctx.tie_broken("UmlBlob.adaptor differs from the abstract diagram the harness computes from kojen's objects", {"diagram": name})
+        elif cd is not None and (km.call("ub_adaptor_incl", vs.db_v(db), name) or [None])[0] != ub.conv_bytes(us.abstract_incl(cd)):
+            ctx.tie_broken("UmlIncl.adaptor_incl differs from the raw diagram the harness computes from kojen's objects", {"diagram": name})
         elif cd is not None and km.call("ub_adaptor_cs", vs.db_v(db), name) != [ub.abstract_view_cs(cd)]:
             ctx.tie_broken("UmlBlob.adaptor_cs differs from the abstract diagram the harness computes from kojen's objects with LanguageCsharp", {"diagram": name})
         ctx.case(("adaptor-shipped", name))
@@ -912,6 +915,12 @@ def adaptor_case(ctx, stack, cd, seed, meta=None):
         ctx.tie_broken("UmlBlob.adaptor differs from the abstract diagram of the objects read back", info)
     if ctx.km is not None and ctx.km.call("ub_adaptor_cs", vs.db_v(db), name) != [ub.abstract_view_cs(cd2)]:
         ctx.tie_broken("UmlBlob.adaptor_cs differs from the abstract diagram (LanguageCsharp) of the objects read back", info)
+    if ctx.km is not None:
+        got = ctx.km.call("ub_adaptor_incl", vs.db_v(db), name)
+        if not got or got[0] != ub.conv_bytes(us.abstract_incl(cd2)):
+            ctx.tie_broken("UmlIncl.adaptor_incl differs from the raw diagram of the objects read back", info)
+        else:
+            ctx.count("incl_names_ok=%s" % (got[1] == b"1"))
     ctx.count("adaptor_synthesised_projects")
     return path, name, cd2
 
